@@ -7,11 +7,49 @@ package storage
 // $added: ghost counter of the triples handed to AddTriples calls that reported success.
 //@ ghost var $added Int
 
+// $driverFailed: ghost flag, set when a call of a storage driver (Store or Graph method) returns an
+// error. $newGraphCalls / $deleteGraphCalls count the calls of Store.NewGraph / Store.DeleteGraph.
+//@ ghost var $driverFailed Bool
+//@ ghost var $newGraphCalls Int
+//@ ghost var $deleteGraphCalls Int
+//@ ghost var $graphLookups Int
+
+//@ props C05 C15 C19 C20 C04
 //@ func (this Graph) AddTriples
 //@   nobody
-//@   modifies $added
+//@   modifies $added, $driverFailed
 //@   ghostdef result == nil ==> $added == old($added) + len(ts)
 //@   ghostdef result != nil ==> $added == old($added)
+//@   ghostdef result != nil ==> $driverFailed
+//@   ghostdef result == nil ==> $driverFailed == old($driverFailed)
+
+//@ props C20 C04
+//@ func (this Store) NewGraph
+//@   nobody
+//@   modifies $driverFailed, $newGraphCalls
+//@   ghostdef $newGraphCalls == old($newGraphCalls) + 1
+//@   ghostdef result1 != nil ==> $driverFailed
+//@   ghostdef result1 == nil ==> $driverFailed == old($driverFailed)
+//@ func (this Store) DeleteGraph
+//@   nobody
+//@   modifies $driverFailed, $deleteGraphCalls
+//@   ghostdef $deleteGraphCalls == old($deleteGraphCalls) + 1
+//@   ghostdef result != nil ==> $driverFailed
+//@   ghostdef result == nil ==> $driverFailed == old($driverFailed)
+//@ func (this Store) Graph
+//@   nobody
+//@   modifies $driverFailed, $graphLookups
+//@   ghostdef $graphLookups == old($graphLookups) + 1
+//@   ghostdef result1 != nil ==> $driverFailed
+//@   ghostdef result1 == nil ==> $driverFailed == old($driverFailed) && result0 != nil
+//@ func (this Store) GraphNames
+//@   nobody
+//@   modifies $driverFailed
+//@   ghostdef result != nil ==> $driverFailed
+//@   ghostdef result == nil ==> $driverFailed == old($driverFailed)
+//@ func (this Graph) ID
+//@   nobody
+//@   pure
 
 // ---- Lookup options as a cache key (C19) -----------------------------------------------------------
 // loEnc: the text LookupOptions.String builds; the memoization layer hashes it into every cache key.
@@ -59,7 +97,13 @@ package storage
 //@ func (this Graph) RemoveTriples
 //@   nobody
 //@   pure
+//@   modifies $driverFailed
+//@   ghostdef result != nil ==> $driverFailed
+//@   ghostdef result == nil ==> $driverFailed == old($driverFailed)
 //@ func (this Graph) Exist
 //@   nobody
 //@   pure
+//@   modifies $driverFailed
+//@   ghostdef result1 != nil ==> $driverFailed
+//@   ghostdef result1 == nil ==> $driverFailed == old($driverFailed)
 //@ globalinv[default-lookup-set] by init: DefaultLookup != nil
